@@ -1,4 +1,50 @@
-import LyModel.Text.JsonNum
+import LyModel.Lex.Utf8Reads
+import LyModel.Lex.JsonNumLemmas
+/-!
+# C05 — arbitrary input never corrupts memory: the lexers as buffer programs
+
+Property theorems only (helper lemmas live in `LyModel/Lex`).  Every model is a total structurally recursive
+function (no fuel), so termination on every input is part of each definition being accepted; "a value or an error,
+never both" is the `Except` / `Option` result type.  What is proved here, for ALL byte strings:
+
+* no store of `lyjson_exp_number` lands at or behind the `buf_len + 1` allocated bytes, and no length handed to
+  `memset` / the copy loop is negative (`json_exp_number_in_bounds`);
+* `ly_getutf8` reads index `i` only when the bytes before it are not NUL (`getutf8_reads_before_nul`).
+-/
 namespace LyModel.Props.C05
-theorem placeholder : True := trivial
+open LyModel LyModel.JsonNum LyModel.Lex.Utf8Reads
+
+/-- **JSON numbers with an exponent.**  For every input on which `lyjson_number` reaches `lyjson_exp_number` and the
+    latter succeeds (every RFC 8259 number text, every exponent the C accepts — and every other byte string that gets
+    that far): each store `buf[i] = b` of the composition, the `memset`s and the final NUL included, has
+    `i < buf_len + 1`, the size of the allocation; every length passed on (`size_t` / `uint32_t` in the C) is `≥ 0`.
+    The bound is tight: in the miscounted branch (F14, `0.5e1`) a store does go to index `buf_len`. -/
+theorem json_exp_number_in_bounds (inp : Bytes) (r : NumOut) (x : ExpOut)
+    (h : number inp = .ok r) (hx : r.exp = some x) :
+    (∀ w ∈ x.writes, w.1 < x.alloc) ∧ (∀ l ∈ x.lens, 0 ≤ l) := by
+  obtain ⟨e, hlz, he⟩ := number_exp inp r x h hx
+  exact expNumber_bounds inp e x hlz he
+
+/-- non-vacuity: `-12.50e-3,` goes through the composition (8 stores into 8 bytes); so does the F14 witness `0.5e1` -/
+example : ∃ r x, number [45, 49, 50, 46, 53, 48, 101, 45, 51, 44] = .ok r ∧ r.exp = some x ∧ x.alloc = 8 ∧ x.writes.length = 8 ∧
+    r.value = [45, 48, 46, 48, 49, 50, 53] := by
+  refine ⟨_, _, rfl, rfl, ?_⟩
+  decide
+
+example : ∃ r x, number [48, 46, 53, 101, 49] = .ok r ∧ r.exp = some x ∧ x.alloc = 2 ∧ x.writes = [(0, 46), (1, 53), (1, 0)] := by
+  refine ⟨_, _, rfl, rfl, ?_⟩
+  decide
+
+/-- **`ly_getutf8` never reads past the terminator.**  The instrumented reader computes exactly `Utf8.getUtf8`, and
+    every index it reads is preceded by non-NUL bytes only; so on a NUL-terminated buffer no read index exceeds the
+    length of the C string, whatever (malformed, truncated) bytes it holds. -/
+theorem getutf8_reads_before_nul (inp : Bytes) :
+    (getUtf8I inp).1 = Utf8.getUtf8 inp ∧
+    (∀ i ∈ (getUtf8I inp).2, ∀ j, j < i → Utf8.rd inp j ≠ 0) ∧
+    (∀ i ∈ (getUtf8I inp).2, i ≤ cstrlen inp) :=
+  ⟨getUtf8I_fst inp, getUtf8I_reads inp, getUtf8I_reads_le_cstrlen inp⟩
+
+/-- non-vacuity: a truncated 4-byte sequence `F0 90 80` is read up to index 3 — the NUL — and not further -/
+example : getUtf8I [0xF0, 0x90, 0x80] = (none, [0, 1, 2, 3]) ∧ cstrlen [0xF0, 0x90, 0x80] = 3 := by decide
+
 end LyModel.Props.C05
